@@ -19,6 +19,17 @@ CLAIMED = {
             "Exhaustive only inside the cfg universe (3-4 keys, 2 payload values, lists up to 3); beyond it seeded random. "
             "serde_json trusted.",
             "DESIGN.md §3 C19"),
+    "C12": ("TLA+ spec StatusList (bit-vector window + credential layer + validator status) model-checked by TLC; every "
+            "transition replayed on real lists at several placements; recorded histories validated by TLC",
+            "model_checking",
+            "TLC enumerates every (window value, op, argument) transition of the one-byte (quick) / two-byte (thorough) window "
+            "model for both purposes and checks bit independence, refusal-leaves-unchanged, one-way revocation, reversible "
+            "suspension and the reported-status equivalence as action properties; each transition is replayed on real "
+            "StatusList2021 / StatusList2021Credential objects at several list sizes and byte offsets, decoding the library's "
+            "own encoded list independently to compare the window and to check all other bytes stay zero; random histories of "
+            "live objects are trace-validated.",
+            "gzip/base64 codecs trusted; window of 8/16 bits, all other bytes only checked to remain zero.",
+            "DESIGN.md §3 C12"),
 }
 
 NOT_YET = "check not built yet in this session (work in progress; see DESIGN.md §3 for the planned TLA+ spec and binding)"
